@@ -119,13 +119,17 @@ theorem emit_sinv (s : Server) (ops : List PipeOp) (h : SInv s) (hok : traceOk s
       have := (run_invalid s.pipe ops h1).1
       exact this
 
-theorem commitOps_ok (p : Pipe) (i : Nat) (r : Bytes) (hi : i < p.reqIndex) : traceOk p (commitOps p i r) = true := by
-  simp [commitOps, traceOk, hi]
-
-theorem commitOps_noreq (p : Pipe) (i : Nat) (r : Bytes) : ∀ op ∈ commitOps p i r, op.isReq = false := by
+theorem wOps_free (w w' : WSt) : ∀ op ∈ wOps w w', op.free = true := by
   intro op hop
-  simp [commitOps] at hop
-  rcases hop with rfl | rfl <;> rfl
+  simp only [wOps, List.mem_cons] at hop
+  rcases hop with rfl | hop
+  · rfl
+  · split at hop
+    · simp at hop; subst hop; rfl
+    · simp at hop
+
+theorem free_noreq (op : PipeOp) (h : op.free = true) : op.isReq = false := by
+  cases op <;> simp_all [PipeOp.free, PipeOp.isReq]
 
 /-- rebuilding the invariant after the connection-side fields were updated -/
 theorem sinv_update {s t : Server} (h : SInv s) (hp : t.pipe = s.pipe) (hh : t.hist = s.hist)
@@ -135,17 +139,67 @@ theorem sinv_update {s t : Server} (h : SInv s) (hp : t.pipe = s.pipe) (hh : t.h
   · intro i hi; rw [hp]; exact h.out i (ho i hi)
   · intro hcl; rw [hp] at hcl ⊢; exact hc hcl
 
-theorem quiesce_sinv (s : Server) (n : Nat) (h : SInv s) : SInv (s.quiesce n) := by
-  unfold Server.quiesce
-  have h1 := emit_sinv s [.kernel s.pipe.handed.length] h (traceOk_free _ _ (by simp [PipeOp.free])) (by simp [PipeOp.isReq])
+theorem emit_hist' (s : Server) (ops : List PipeOp) (hh : s.pipe = Pipe.run {} s.hist) (ho : traceOk {} s.hist = true)
+    (hok : traceOk s.pipe ops = true) :
+    (s.emit ops).pipe = Pipe.run {} (s.emit ops).hist ∧ traceOk {} (s.emit ops).hist = true := by
+  simp only [Server.emit]
+  refine ⟨by rw [run_append, ← hh], ?_⟩
+  rw [traceOk_append, ho, ← hh, hok]; rfl
+
+/-- a commit under ANY answers of the kernel: the history stays admissible, nothing but `pipe` / `hist` /
+`wq` / `armed` changes, request and close index stay -/
+theorem commitW_facts (s : Server) (i : Nat) (r : Bytes) (hh : s.pipe = Pipe.run {} s.hist) (ho : traceOk {} s.hist = true)
+    (hi : i < s.pipe.reqIndex) :
+    (s.commitW i r).pipe = Pipe.run {} (s.commitW i r).hist ∧ traceOk {} (s.commitW i r).hist = true ∧
+    (s.commitW i r).conn = s.conn ∧ (s.commitW i r).outstanding = s.outstanding ∧
+    (s.commitW i r).pipe.reqIndex = s.pipe.reqIndex ∧ (s.commitW i r).pipe.closeIndex = s.pipe.closeIndex ∧
+    (s.pipe.valid = false → (s.commitW i r).pipe.valid = false) := by
+  unfold Server.commitW
   dsimp only
+  generalize List.foldl directWrite s.wst _ = w'
+  have hok : traceOk s.pipe (.commit i r :: wOps s.wst w') = true := by
+    simp only [traceOk, Bool.and_eq_true, decide_eq_true_eq]
+    exact ⟨hi, traceOk_free _ _ (wOps_free _ _)⟩
+  have hnr : ∀ op ∈ PipeOp.commit i r :: wOps s.wst w', op.isReq = false := by
+    intro op hop
+    rcases List.mem_cons.mp hop with rfl | hop
+    · rfl
+    · exact free_noreq op (wOps_free _ _ op hop)
+  have he := emit_hist' s _ hh ho hok
+  have hf := run_fields s.pipe _ hnr
+  exact ⟨he.1, he.2, rfl, rfl, hf.1, hf.2, fun hv => (run_invalid s.pipe _ hv).1⟩
+
+theorem commitW_sinv (s : Server) (i : Nat) (r : Bytes) (h : SInv s) (hi : i < s.pipe.reqIndex) : SInv (s.commitW i r) := by
+  obtain ⟨f1, f2, f3, f4, f5, f6, f7⟩ := commitW_facts s i r h.hist h.ok hi
+  refine ⟨f1, f2, ?_, ?_⟩
+  · intro j hj; rw [f4] at hj; rw [f5]; exact h.out j hj
+  · intro hc
+    rw [f6] at hc; rw [f3]
+    rcases h.closed hc with h1 | h1 | h1
+    · exact Or.inl h1
+    · exact Or.inr (Or.inl h1)
+    · exact Or.inr (Or.inr (f7 h1))
+
+theorem quiesce_sinv (s : Server) (h : SInv s) : SInv s.quiesce := by
+  unfold Server.quiesce
+  dsimp only
+  generalize drain _ s.wst = w'
+  have h1 := emit_sinv s (wOps s.wst w') h (traceOk_free _ _ (wOps_free _ _)) (fun op hop => free_noreq op (wOps_free _ _ op hop))
+  have h2 : SInv { s.emit (wOps s.wst w') with wq := w'.wq, stuck := w'.stuck, armed := false } :=
+    sinv_update h1 rfl rfl (fun j hj => hj) (fun hc => h1.closed hc)
   split
   · rename_i hc
-    simp only [Bool.and_eq_true, beq_iff_eq] at hc
-    exact emit_sinv _ [.sendComplete] h1 (by simp [traceOk, hc.2]) (by simp [PipeOp.isReq])
-  · exact h1
+    simp only [Bool.and_eq_true] at hc
+    refine emit_sinv _ [.sendComplete] h2 ?_ (by simp [PipeOp.isReq])
+    have := hc.2
+    simp only [Bool.or_eq_true, beq_iff_eq] at this
+    simp only [traceOk, Bool.and_true, Bool.or_eq_true, decide_eq_true_eq]
+    rcases this with h3 | h3
+    · exact Or.inl (Or.inr h3)
+    · exact Or.inr h3
+  · exact h2
 
-/-- one request through the handler chain — for EVERY script -/
+/-- one request through the handler chain — for EVERY script and EVERY answer of the kernel -/
 theorem handleReq_facts (s : Server) (last : Bool) (h : SInv s) (hn : s.pipe.closeIndex.isNone = true) :
     (s.handleReq last).1.pipe = Pipe.run {} (s.handleReq last).1.hist ∧
     traceOk {} (s.handleReq last).1.hist = true ∧
@@ -154,70 +208,45 @@ theorem handleReq_facts (s : Server) (last : Bool) (h : SInv s) (hn : s.pipe.clo
     (s.handleReq last).1.conn = s.conn := by
   generalize hsc : runChain ((s.scripts.lookup s.pipe.reqIndex).getD defaultScript) nLevels 0 {} = hst
   have hcn : s.pipe.closeIndex = none := by simpa using hn
-  have key : ∀ ops : List PipeOp, (∀ op ∈ ops, op.isReq = false) →
-      (traceOk (s.pipe.onRequest last) ops = true) →
-      traceOk s.pipe (PipeOp.req last :: ops) = true ∧
-      (s.pipe.run (PipeOp.req last :: ops)).reqIndex = s.pipe.reqIndex + 1 ∧
-      ((s.pipe.run (PipeOp.req last :: ops)).closeIndex.isSome = true → last = true) := by
-    intro ops hnr hok
-    have hf := run_fields (s.pipe.onRequest last) ops hnr
-    refine ⟨by simp [traceOk, hn, Pipe.step, hok], ?_, ?_⟩
-    · simp only [Pipe.run, List.foldl_cons, Pipe.step] at hf ⊢
-      rw [hf.1]; rfl
-    · simp only [Pipe.run, List.foldl_cons, Pipe.step] at hf ⊢
-      rw [hf.2]
-      simp only [onRequest, hcn]
-      cases last <;> simp
-  have hdrop : ∀ (b : Bool), ∀ op ∈ (if b then [PipeOp.drop] else []), op.free = true := by
-    intro b op hop; cases b <;> simp at hop; subst hop; rfl
-  -- the operations after `req`: an optional drop, then (unless the context was kept) the commit
-  have hrest : ∀ rest : List PipeOp, rest = (if hst.stopped then [PipeOp.drop] else []) ++
-        (if hst.kept then [] else commitOps s.pipe s.pipe.reqIndex hst.resp.render) →
-      (∀ op ∈ rest, op.isReq = false) ∧ traceOk (s.pipe.onRequest last) rest = true := by
-    intro rest hr
-    subst hr
-    refine ⟨?_, ?_⟩
-    · intro op hop
-      rw [List.mem_append] at hop
-      rcases hop with hop | hop
-      · split at hop
-        · simp at hop; subst hop; rfl
-        · simp at hop
-      · split at hop
-        · simp at hop
-        · exact commitOps_noreq _ _ _ op hop
-    · rw [traceOk_append, traceOk_free _ _ (hdrop hst.stopped)]
-      cases hst.kept with
-      | true => simp [traceOk]
-      | false =>
-        have hf := run_fields (s.pipe.onRequest last) (if hst.stopped then [PipeOp.drop] else [])
-          (fun op hop => by
-            split at hop
-            · simp at hop; subst hop; rfl
-            · simp at hop)
-        simp only [Bool.false_eq_true, if_false, Bool.true_and, commitOps, traceOk, Bool.and_true, decide_eq_true_eq]
-        rw [hf.1]; simp [onRequest]
-  obtain ⟨hnr, hok⟩ := hrest _ rfl
-  have k := key _ hnr hok
-  have he := emit_hist s _ h k.1
+  -- `req`, then an optional drop
+  have hdrop : ∀ op ∈ (if hst.stopped then [PipeOp.drop] else []), op.free = true := by
+    intro op hop
+    split at hop
+    · simp at hop; subst hop; rfl
+    · simp at hop
+  have hok0 : traceOk s.pipe (PipeOp.req last :: (if hst.stopped then [PipeOp.drop] else [])) = true := by
+    simp only [traceOk, hn, Bool.true_and]
+    exact traceOk_free _ _ hdrop
+  have he := emit_hist s _ h hok0
+  have hf := run_fields (s.pipe.onRequest last) (if hst.stopped then [PipeOp.drop] else [])
+    (fun op hop => free_noreq op (hdrop op hop))
+  have hri : (s.emit (PipeOp.req last :: (if hst.stopped then [PipeOp.drop] else []))).pipe.reqIndex = s.pipe.reqIndex + 1 := by
+    simp only [Server.emit, Pipe.run, List.foldl_cons, Pipe.step] at hf ⊢
+    rw [hf.1]; rfl
+  have hci : (s.emit (PipeOp.req last :: (if hst.stopped then [PipeOp.drop] else []))).pipe.closeIndex.isSome = true → last = true := by
+    simp only [Server.emit, Pipe.run, List.foldl_cons, Pipe.step] at hf ⊢
+    rw [hf.2]
+    simp only [onRequest, hcn]
+    cases last <;> simp
+  simp only [Server.handleReq, hsc]
   by_cases hk : hst.kept = true
-  · simp only [hk, if_true] at he k
-    simp only [Server.handleReq, hsc, hk, if_true]
-    refine ⟨he.1, he.2, ?_, k.2.2, rfl⟩
+  · simp only [hk, if_true]
+    refine ⟨he.1, he.2, ?_, hci, rfl⟩
     intro i hi
-    simp only [Server.emit, List.mem_append, List.mem_singleton] at hi ⊢
-    rw [k.2.1]
+    simp only [List.mem_append, List.mem_singleton] at hi
+    rw [hri]
     rcases hi with hi | rfl
-    · have := h.out i hi; omega
+    · have := h.out i (by simpa [Server.emit] using hi); omega
     · omega
   · have hk' : hst.kept = false := by simpa using hk
-    simp only [hk', Bool.false_eq_true, if_false] at he k
-    simp only [Server.handleReq, hsc, hk', Bool.false_eq_true, if_false]
-    refine ⟨he.1, he.2, ?_, k.2.2, rfl⟩
-    intro i hi
-    simp only [Server.emit] at hi ⊢
-    rw [k.2.1]
-    have := h.out i hi; omega
+    simp only [hk', Bool.false_eq_true, if_false]
+    obtain ⟨f1, f2, f3, f4, f5, f6, _⟩ := commitW_facts _ s.pipe.reqIndex hst.resp.render he.1 he.2 (by rw [hri]; omega)
+    refine ⟨f1, f2, ?_, ?_, ?_⟩
+    · intro i hi
+      rw [f4] at hi; rw [f5, hri]
+      have := h.out i (by simpa [Server.emit] using hi); omega
+    · intro hc; rw [f6] at hc; exact hci hc
+    · rw [f3]; rfl
 
 theorem walk_sinv (whole : Bytes) (evs : List Ev) (s : Server) (c : Nat) (h : SInv s)
     (hn : s.pipe.closeIndex.isNone = true) : SInv (Server.walk whole s c evs).1 := by
@@ -288,21 +317,23 @@ theorem seg_sinv (s : Server) (bytes : Bytes) (h : SInv s) : SInv (s.seg Cfg.fix
     obtain ⟨s1, ds, early⟩ := res
     simp only at hw ⊢
     split
-    · exact emit_sinv s1 _ hw (traceOk_free _ _ (by simp [PipeOp.free])) (by simp [PipeOp.isReq])
+    · exact hw
     · split
-      · exact emit_sinv s1 _ hw (traceOk_free _ _ (by simp [PipeOp.free])) (by intro op hop; simp at hop; rcases hop with rfl | rfl <;> rfl)
-      · exact quiesce_sinv s1 _ hw
+      · have h1 := emit_sinv s1 [.drop] hw (traceOk_free _ _ (by simp [PipeOp.free])) (by simp [PipeOp.isReq])
+        exact sinv_update h1 rfl rfl (fun j hj => hj) (fun hc => h1.closed hc)
+      · exact quiesce_sinv s1 hw
 
 theorem done_sinv (s : Server) (i : Nat) (r : Respond) (h : SInv s) : SInv ((s.done i r).getD s) := by
   unfold Server.done
   split
   · rename_i hc
     have hi : i ∈ s.outstanding := by simpa using hc
-    have h1 := emit_sinv s (commitOps s.pipe i r.render) h (commitOps_ok _ _ _ (h.out i hi)) (commitOps_noreq _ _ _)
+    have h1 := commitW_sinv s i r.render h (h.out i hi)
+    have ho := (commitW_facts s i r.render h.hist h.ok (h.out i hi)).2.2.2.1
     simp only [Option.getD_some]
     apply quiesce_sinv
     exact sinv_update h1 rfl rfl (fun j hj => by
-      simp only [Server.emit]; exact (List.mem_filter.mp hj).1) (fun hc => h1.closed hc)
+      rw [ho]; exact (List.mem_filter.mp hj).1) (fun hc => h1.closed hc)
   · exact h
 
 theorem cclose_sinv (s : Server) (pre : Option (Nat × Respond)) (cf : Bool) (h : SInv s) :
@@ -310,13 +341,13 @@ theorem cclose_sinv (s : Server) (pre : Option (Nat × Respond)) (cf : Bool) (h 
   unfold Server.cclose
   split
   · exact h
-  · have gone : ∀ s' : Server, SInv s' → s'.outstanding = s.outstanding →
-        SInv { s'.emit [.drop] with cclosed := true, conn := { s.conn with dead := true, buf := [] } } := by
-      intro s' hs' _
+  · have gone : ∀ s' : Server, SInv s' →
+        SInv { s'.emit [.drop] with cclosed := true, armed := false, conn := { s.conn with dead := true, buf := [] } } := by
+      intro s' hs'
       have h1 := emit_sinv s' [.drop] hs' (traceOk_free _ _ (by simp [PipeOp.free])) (by simp [PipeOp.isReq])
       exact sinv_update h1 rfl rfl (fun j hj => hj) (fun _ => Or.inr (Or.inl rfl))
     cases pre with
-    | none => exact gone s h rfl
+    | none => exact gone s h
     | some ir =>
       obtain ⟨i, r⟩ := ir
       dsimp only
@@ -324,20 +355,25 @@ theorem cclose_sinv (s : Server) (pre : Option (Nat × Respond)) (cf : Bool) (h 
       · rename_i hc
         have hi : i ∈ s.outstanding := by simpa using hc
         simp only [Option.getD_some]
-        cases cf with
-        | true =>
-          have h0 := emit_sinv s [.writeError] h (traceOk_free _ _ (by simp [PipeOp.free])) (by simp [PipeOp.isReq])
-          have h1 := emit_sinv _ (commitOps (s.emit [.writeError]).pipe i r.render) h0
-            (commitOps_ok _ _ _ (h0.out i (by simpa [Server.emit] using hi))) (commitOps_noreq _ _ _)
-          have h2 := gone _ h1 (by simp [Server.emit])
-          exact sinv_update h2 rfl rfl (fun j hj => by
-            simp only [Server.emit]; exact (List.mem_filter.mp hj).1) (fun hc => h2.closed hc)
-        | false =>
-          have h1 := emit_sinv s (commitOps s.pipe i r.render) h (commitOps_ok _ _ _ (h.out i hi)) (commitOps_noreq _ _ _)
-          have h2 := gone _ h1 (by simp [Server.emit])
-          exact sinv_update h2 rfl rfl (fun j hj => by
-            simp only [Server.emit]; exact (List.mem_filter.mp hj).1) (fun hc => h2.closed hc)
+        have h0 : SInv (if cf = true then s.emit [.writeError] else s) := by
+          split
+          · exact emit_sinv s [.writeError] h (traceOk_free _ _ (by simp [PipeOp.free])) (by simp [PipeOp.isReq])
+          · exact h
+        have hout0 : (if cf = true then s.emit [.writeError] else s).outstanding = s.outstanding := by
+          split <;> rfl
+        have hi0 : i < (if cf = true then s.emit [.writeError] else s).pipe.reqIndex := h0.out i (by rw [hout0]; exact hi)
+        have h1 := commitW_sinv _ i r.render h0 hi0
+        have ho := (commitW_facts _ i r.render h0.hist h0.ok hi0).2.2.2.1
+        have h2 := gone _ h1
+        exact sinv_update h2 rfl rfl (fun j hj => by
+          change j ∈ (Server.commitW (if cf = true then s.emit [.writeError] else s) i r.render).outstanding
+          rw [ho, hout0]; exact (List.mem_filter.mp hj).1) (fun hc => h2.closed hc)
       · exact h
+
+theorem sstop_sinv (s : Server) (h : SInv s) : SInv s.sstop := by
+  unfold Server.sstop
+  have h1 := emit_sinv s [.drop] h (traceOk_free _ _ (by simp [PipeOp.free])) (by simp [PipeOp.isReq])
+  exact sinv_update h1 rfl rfl (fun j hj => hj) (fun _ => Or.inr (Or.inl rfl))
 
 theorem step_sinv (s : Server) (op : SrvOp) (h : SInv s) : SInv (s.step op) := by
   cases op with
@@ -362,9 +398,13 @@ theorem step_sinv (s : Server) (op : SrvOp) (h : SInv s) : SInv (s.step op) := b
     exact emit_sinv s [.writeError] h (traceOk_free _ _ (by simp [PipeOp.free])) (by simp [PipeOp.isReq])
   | sstop =>
     simp only [Server.step]; split; exact h
-    unfold Server.sstop
-    have h1 := emit_sinv s [.drop] h (traceOk_free _ _ (by simp [PipeOp.free])) (by simp [PipeOp.isReq])
-    exact sinv_update h1 rfl rfl (fun j hj => hj) (fun _ => Or.inr (Or.inl rfl))
+    exact sstop_sinv s h
+  | rerr =>
+    simp only [Server.step]; split; exact h
+    exact sstop_sinv s h
+  | wq q =>
+    simp only [Server.step]; split; exact h
+    exact sinv_update h rfl rfl (fun j hj => hj) (fun hc => h.closed hc)
 
 theorem run_sinv (ops : List SrvOp) (s : Server) (h : SInv s) : SInv (ops.foldl Server.step s) := by
   induction ops generalizing s with
